@@ -126,9 +126,15 @@ CLAIMS = {
 
 NOT_BUILT = "check not built yet in this session (see DESIGN.md §7 build order); not claimed until it exists"
 NA = {
-    "C18": "C++ CAN frame wrapper: id/bus/DLC/payload and the unknown-frame answer are computed by generated C++ over run-time strings and byte vectors; no structural clause in reach decides it and compiling+running the rendered code is a different technique family (DESIGN.md §6).",
 }
 
+
+CLAIMS["C18"] = (
+    "typed clang AST of the abstract instantiations of the four CAN wrapper headers (Jinja expressions become opaque identifiers, loops unrolled once; stand-ins for the generated fcp.h / reflection.h): provenance of the frame_t initialisers, bounds of every copy into the frame's fixed-size arrays, fall-through of the name lookup, padding-insensitive bus comparison; Jinja loop populations of the static tables",
+    "Narrow: in both CanStaticSchema and CanDynamicSchema the returned frame is {bus <- bus lookup of the encoded message's name, sid <- id lookup of that name, dlc <- size of the payload the codec produced, data <- that payload}; every std::copy/copy_n into a fixed-size array of the frame is bounded by the array (constant count, min(.., size), or a dominating size test that returns) and does not read past a shorter source; the (id, bus) -> name lookup falls through to nullopt and Decode returns nullopt on it; the 4-character bus tag is compared after removing its zero padding; the static tables are all rendered from the CAN bindings with the keys id/bus/name and the run-time lookups consult only bindings of protocol \"can\" with the same keys. Not decided: payload bytes and decoded values (C03/C13), std::string/JSON run-time behaviour, bus names longer than 4 characters, frame ids above 16 bits.",
+    "Trusted: the abstract instantiation and the stand-in fcp.h/reflection.h; the property's quantifier (bus names of 1-4 characters). Designed as not applicable; claimed after the typed reading of templates (DESIGN.md §6, §14) showed that these clauses are visible in the shape of the code and exposed three defects (D29-D31, all repaired).",
+    "DESIGN.md §6, §14",
+)
 
 # clauses added while strengthening the checks against the second round of seeded changes (DESIGN.md §12)
 ADDENDA = {
